@@ -138,11 +138,21 @@ def run_seq(ctx, case):
             P.add("push_at %s %s i:%d" % (c, v, i), expect_exc(IDX))
     elif f == "pop-empty":
         if n != 0:
-            P.add("resize %s 0" % c) if not (kind == "Tuple" and n == 0) else None
+            P.add("resize %s 0" % c)
             r.model[:] = []
             n = 0
             if et == "Probe":
                 P.add("live", expect_ok("live=0 ledger=-"))
+        # the empty container is reached in different ways: just cleared; empty but with reserved capacity;
+        # empty after another rejected operation (which may have reserved space before failing)
+        how = case["idx"]
+        if how in ("neglen1", "min") and kind == "Array":
+            P.add("resize %s %d" % (c, 3 + case["at"] % 9))
+        elif how in ("far", "max") and kind != "Tuple":
+            P.add("push %s %s" % (c, OTHER[et]), expect_exc(*WRONG))
+            r.check()
+        elif how == "negfar" and kind != "Tuple":
+            P.add("push %s null" % c, expect_exc("ValueError"))
         P.add("pop %s" % c, expect_exc(IDX))
     elif f == "rem-absent":
         absent = {"Int": "i:424242", "String": "s:6e6f7065", "Probe": "p:424242"}[et]
@@ -423,7 +433,7 @@ def extra_phase(ctx, tier, stats, sample_fn):
             for n in sizes:
                 ops = [["push", seqs_default(et)]] * n + [["push", seqs_default(et)], ["pop"], ["push", seqs_default(et)], ["pop"]]
                 for f in SEQ_FAULTS:
-                    idxs = IDXKINDS if f.endswith("-idx") else ["len"]
+                    idxs = IDXKINDS if (f.endswith("-idx") or f == "pop-empty") else ["len"]
                     for ik in idxs:
                         run({"fam": "seq", "base": {"kind": kind, "et": et, "ops": ops}, "at": (n * 1001) // (len(ops) + 1) + 1,
                              "fault": f, "idx": ik})
